@@ -697,3 +697,137 @@ func (c *Ctx) appendAlways(rule string, fi *FuncInfo, fields []string, clause st
 	}
 	return n
 }
+
+// BREAK-IDENTICAL: the loops of Compare and CompareWeighted that look the branches of one tree up in
+// the index of the other go through every branch; the only early exit is the identical-only mode,
+// where the first difference decides. Every unlabelled `break` that leaves such a loop therefore
+// sits under the (un-negated) identical-only parameter. A break under anything else ("nothing was
+// missing the other way, so nothing can be missing this way" - true of binary trees only) makes a
+// contraction of the reference look identical and empties the reference-only terms.
+func (c *Ctx) breakIdentical(rule string, funcs []*FuncInfo, clause string) int {
+	n := 0
+	for _, fi := range funcs {
+		if fi == nil || fi.Decl.Body == nil {
+			continue
+		}
+		info := fi.Pkg.TypesInfo
+		// the identical-only parameter: the second bool parameter
+		var ident types.Object
+		nb := 0
+		for _, f := range fi.Decl.Type.Params.List {
+			for _, nm := range f.Names {
+				if o := info.Defs[nm]; o != nil {
+					if b, ok := o.Type().Underlying().(*types.Basic); ok && b.Kind() == types.Bool {
+						nb++
+						if nb == 2 {
+							ident = o
+						}
+					}
+				}
+			}
+		}
+		if ident == nil {
+			c.Undecided(rule, fi.Name()+"/param", fi.Decl.Pos(), "no second boolean parameter (identical-only mode) found")
+			continue
+		}
+		walkStack(fi.Decl.Body, func(nd ast.Node, stack []ast.Node) bool {
+			br, ok := nd.(*ast.BranchStmt)
+			if !ok || br.Tok != token.BREAK || br.Label != nil {
+				return true
+			}
+			var loop ast.Node
+			for i := len(stack) - 1; i >= 0 && loop == nil; i-- {
+				switch stack[i].(type) {
+				case *ast.SwitchStmt, *ast.TypeSwitchStmt, *ast.SelectStmt:
+					return true
+				case *ast.ForStmt, *ast.RangeStmt:
+					loop = stack[i]
+				}
+			}
+			if loop == nil {
+				return true
+			}
+			n++
+			key := fmt.Sprintf("%s/break#%d", fi.Name(), n)
+			conds, okc := c.pathConds(info, fi.Decl.Body, br, true)
+			under := false
+			for _, cd := range conds {
+				if cd.Expr != nil && !cd.Neg && identObj(info, cd.Expr) == ident {
+					under = true
+				}
+			}
+			if !okc {
+				c.Undecided(rule, key, br.Pos(), "conditions of this break not understood")
+				return true
+			}
+			c.Check(under, rule, key, br.Pos(), "the early exit is taken in identical-only mode only",
+				fmt.Sprintf("this `break` leaves a loop over the branches of %s without being under `%s`: in full mode the branches after that point are never looked up, so the counts and the weighted terms miss them (a contraction of the reference then compares as identical)", fi.Obj.Name(), ident.Name())).Clause = clause
+			return true
+		})
+	}
+	return n
+}
+
+// NEW-BRANCH-ZERO (go/cfg): Resolve "only adds zero-length branches without support". Every branch
+// that resolveRecur creates (a variable assigned from ConnectNodes) is given the constant length 0
+// on every path that follows - not only when some other branch of the node happens to have a length.
+func (c *Ctx) newBranchZero(rule string, fi *FuncInfo, clause string) int {
+	if fi == nil || fi.Decl.Body == nil {
+		return 0
+	}
+	info := fi.Pkg.TypesInfo
+	g := c.cfgOf(info, fi.Decl.Body)
+	n := 0
+	ast.Inspect(fi.Decl.Body, func(nd ast.Node) bool {
+		as, ok := nd.(*ast.AssignStmt)
+		if !ok || len(as.Lhs) != 1 || len(as.Rhs) != 1 {
+			return true
+		}
+		call, isCall := unparen(as.Rhs[0]).(*ast.CallExpr)
+		if !isCall || !isRepoFunc(calleeOf(info, call), "tree", "Tree", "ConnectNodes") {
+			return true
+		}
+		e := identObj(info, as.Lhs[0])
+		if e == nil {
+			return true
+		}
+		// the connecting branch is the one that gets a constant 0 somewhere (the re-created
+		// branches get the length of the branch they replace: LF's subject)
+		isZeroSet := func(cl *ast.CallExpr, h *types.Func) bool {
+			if h == nil || h.Name() != "SetLength" || len(cl.Args) != 1 {
+				return false
+			}
+			sel, isSel := cl.Fun.(*ast.SelectorExpr)
+			if !isSel || identObj(info, sel.X) != e {
+				return false
+			}
+			tv, has := info.Types[cl.Args[0]]
+			return has && tv.Value != nil && constKey(tv.Value) == "0"
+		}
+		if !containsCall(info, fi.Decl.Body, isZeroSet) {
+			return true
+		}
+		n++
+		key := fmt.Sprintf("%s/%s#%d", funcName(fi.Obj), e.Name(), n)
+		res := mustPass(g, as.Pos(), func(m ast.Node) bool {
+			return containsCall(info, m, func(cl *ast.CallExpr, h *types.Func) bool {
+				if h == nil || h.Name() != "SetLength" || len(cl.Args) != 1 {
+					return false
+				}
+				sel, isSel := cl.Fun.(*ast.SelectorExpr)
+				if !isSel || identObj(info, sel.X) != e {
+					return false
+				}
+				tv, has := info.Types[cl.Args[0]]
+				return has && tv.Value != nil && constKey(tv.Value) == "0"
+			})
+		}, func(ret *ast.ReturnStmt) bool { return true })
+		if res.ok {
+			c.OK(rule, key, as.Pos(), "the branch created here gets the constant length 0 on every path").Clause = clause
+		} else {
+			c.Violation(rule, key, as.Pos(), fmt.Sprintf("the branch `%s` created here can reach the end of the function without `%s.SetLength(0)`: a branch added by the resolution keeps an absent length, which is written without `:0` and is not a zero-length branch for the readers of the result", e.Name(), e.Name())).Clause = clause
+		}
+		return true
+	})
+	return n
+}
